@@ -7,6 +7,7 @@ import (
 	"errors"
 	"fmt"
 	"io"
+	"unicode/utf8"
 )
 
 // UnmarshalJSON expects an io Reader whose data will be parsed using a streaming
@@ -14,7 +15,16 @@ import (
 // objects can then be re-encoded back into canonical JSON suitable for sending to
 // a hashing algorithm.
 func UnmarshalJSON(src io.Reader) (Canonicalable, error) {
-	dec := json.NewDecoder(src)
+	// The JSON decoder silently replaces invalid UTF-8 sequences, so
+	// the encoding needs to be checked on the source data itself.
+	data, err := io.ReadAll(src)
+	if err != nil {
+		return nil, err
+	}
+	if !utf8.Valid(data) {
+		return nil, errors.New("invalid UTF-8 encoding")
+	}
+	dec := json.NewDecoder(bytes.NewReader(data))
 	dec.UseNumber()
 
 	res, err := handleNextToken(dec)
